@@ -268,6 +268,11 @@ package auth
 //@   requires auth != nil && auth.MetaKeys != nil && user != nil && dynType(user) == typeTag(*userImpl) && userOf(user) != nil
 //@   modifies docs
 //@   before[key-from-id] call Set#1 $2 == sessKey(auth.MetaKeys, session.ID)
+// A session document is never stored with expiry 0 ("never expires"): sessions are not checked against session.Expiration
+// on read, the bucket's TTL is the only thing that ends them (see /verif/trusted/c12_auth.spec). Beyond 30 days the expiry
+// is an absolute Unix time (not decided here: non-zero unless now+ttl is a multiple of 2^32 seconds).
+//@   before[expiry-positive] call Set#1 $3 >= 1 || ttl > 2592000000000000
+//@   ensures[ttl-whole-second] isNilErr(result1) ==> ttl >= 1000000000 && result0.Ttl == ttl
 //@   ensures[not-for-disabled] isNilErr(result1) ==> !userOf(user).Disabled_
 //@   ensures[bound-to-user]    isNilErr(result1) ==> result0 != nil && result0.SessionUUID == userOf(user).SessionUUID_
 //@   ensures[stored]           isNilErr(result1) ==> sessKey(auth.MetaKeys, result0.ID) in docs
@@ -291,6 +296,10 @@ package auth
 //@   requires auth != nil && auth.MetaKeys != nil && rq != nil
 //@   modifies docs
 //@   propagates deleteOneTimeSession#1
+// Refresh branch: the session document is re-stored with the ttl it carries (24h if absent), which is at least one
+// second, and with a non-zero document expiry derived from it.
+//@   before[refresh-keeps-ttl]         call Set#1 duration == session.Ttl && session.Ttl >= 1000000000
+//@   before[refresh-expiry-positive]   call Set#1 $3 >= 1 || duration > 2592000000000000
 //@   before[checked-before-delete] call deleteOneTimeSession#1 user != nil && sessionOf(auth, $2, user)
 //@   ensures[no-error]     result0 != nil ==> isNilErr(result1)
 //@   ensures[found]        result0 != nil ==> sessKey(auth.MetaKeys, cookieValue(rq, auth.SessionCookieName)) in old(docs)
